@@ -37,7 +37,7 @@ impl Check for C09 {
     fn meta(&self) -> Meta {
         Meta {
             level: "exploration",
-            rule: "one run = one operation circuit of the registry (the circuits of C04-C07) synthesised on a structure-recording back end three ways: with unknown witnesses, with the concrete boundary-class witness (closures invoked), and under Byzantine edits of assigned values; fixed cells, selectors, the copy-constraint partition, table fills, advice cell positions and region count must be identical. For every 12th run the real key generator produces the verifying key without a witness and a real proof made from the witness must verify under it. distinct_nontrivial counts distinct (operation, static parameters, witness) digests compared",
+            rule: "one run = one operation circuit of the registry (the circuits of C04-C07 and base64: standard-library relations and the circuits built directly on NativeGadget / PoseidonChip) synthesised on a structure-recording back end three ways: with unknown witnesses, with the concrete boundary-class witness (closures invoked), and under Byzantine edits of assigned values; fixed cells, selectors, the copy-constraint partition, table fills, advice cell positions and region count must be identical. For every 12th run the real key generator produces the verifying key without a witness and a real proof made from the witness must verify under it. distinct_nontrivial counts distinct (operation, static parameters, witness) digests compared",
             assumptions: vec![
                 "structure = what the Assignment back end receives (assign_fixed, enable_selector, copy, fill_from_row, advice positions)",
                 "witness values steer the data-dependent branches of the off-circuit helpers through the registry's boundary classes",
@@ -52,12 +52,18 @@ impl Check for C09 {
     }
     fn runs(&self, tier: Tier) -> u64 {
         match tier {
-            Tier::Quick => 1500,
-            Tier::Thorough => 8000,
+            Tier::Quick => 1800,
+            Tier::Thorough => 9000,
         }
     }
     fn generate(&self, rng: &mut Prng, _tier: Tier, idx: u64) -> Value {
-        let all = ops::all_ops();
+        let mut all = ops::all_ops();
+        // the circuits built directly on the chips (typed assignment, bounded comparisons with
+        // cached bounds, two-step operations on one cell), the map, sponge sequences and base64
+        all.extend(crate::ops_ng::ng_ops());
+        all.push("map.seq".into());
+        all.push("sp.poseidon".into());
+        all.extend(crate::ops_parse::B64_OPS.iter().map(|s| s.to_string()));
         let mut op = all[(idx as usize) % all.len()].clone();
         if op.ends_with("mul_by_constant") && (op.starts_with("ec.k256") || op.starts_with("ec.bls")) && (idx / all.len() as u64) % 4 != 0 {
             op = op.replace("mul_by_constant", "double");
@@ -82,7 +88,8 @@ impl Check for C09 {
         }
         // (the real pipeline goes through the standard library's relation wrapper; operations
         //  that run in circuits of their own are covered by the structure monitor only)
-        if s.real && !s.inner.case.op.starts_with("ff.c25519") && ops::expected_admissible(&s.inner.case) {
+        let own_circuit = ["ff.c25519", "ng.", "sp."].iter().any(|p| s.inner.case.op.starts_with(p));
+        if s.real && !own_circuit && ops::expected_admissible(&s.inner.case) {
             return real_pipeline(&s.inner.case, st);
         }
         Verdict::Pass
